@@ -757,7 +757,7 @@ theorem gov_endBlock {s s1 : State} {ups : List (Addr × Int)}
   unfold setStaked; split <;> rfl
 
 @[simp] theorem gov_applyParam_other (s : State) (key val : String) :
-    (applyParam s key val).acl = s.acl ∧ (applyParam s key val).bal = s.bal ∧
+    (key ≠ "gov/acl" → (applyParam s key val).acl = s.acl) ∧ (applyParam s key val).bal = s.bal ∧
     (applyParam s key val).supply = s.supply ∧ (applyParam s key val).vals = s.vals := by
   unfold applyParam
   repeat' split
